@@ -184,10 +184,12 @@ static void peer_gone(int v6, int use_send_to, int user_resets_sigpipe) {
 	else if (WEXITSTATUS(status) == 3) { /* setup failed: not judged */ }
 }
 
+static int vh_isolated;
 int main(int argc, char **argv) {
 	vh_rng r; double t0 = vh_now(); int tcp = (int)vh_argi(argc, argv, "--tcp", 8), udp = (int)vh_argi(argc, argv, "--udp", 6), i, id; long long bulk = vh_argi(argc, argv, "--bulk", 2 << 20); pthread_t wd;
 	vh_seed(&r, (uint64_t)vh_argi(argc, argv, "--seed", 1) * 0xC2B2AE3D27D4EB4FULL);
 	signal(SIGPIPE, SIG_DFL);      /* whatever the library does with the disposition happens in p_libsys_init */
+	vh_isolated = vh_private_net();
 	p_libsys_init();
 	pthread_create(&wd, NULL, wd_fn, NULL);
 	for (i = 0; i < tcp && vh_nviol < vh_max_viol; i++) {
